@@ -1021,6 +1021,21 @@ Example ex_kinds_uncounted_rejected :
 Proof. vm_compute. reflexivity. Qed.
 Example ex_checkk_step : completes [SCheck; SCheckK MCompare true 0 13] = true. Proof. reflexivity. Qed.
 
+(* Defect of the tree before /repo ff2a581 (D20): CHECK_COMPARE_LOCATION(first, relop, second, text, file, line) handed
+   __FILE__, __LINE__ of its expansion to assertCompare instead of its file and line arguments, so that the failure was printed at the
+   place of the macro expansion (a helper function, here the harness: file id 99, line 139) for every location given.  The model is the
+   repaired macro; the old behaviour = the same run with the record moved to the expansion site, which the oracle rejects. *)
+Definition ex_macro : scenario := mkScn (mkCfg false false false false 1) [mkRTest false true 100 [] [RS (SCheckK MCompare false 0 110)] [] [] []].
+Definition relocate_old (site : N * N) (o : obs) : obs :=
+  mkObs (o_escaped o) (o_ret o)
+        (map (fun r => mkRep (r_events r) (map (fun f => mkF (f_test f) (fst site) (snd site) (f_kind f)) (r_fails r)) (r_after r) (r_summary r) (r_counters r))
+             (o_reps o)).
+Definition compare_macro_old_stmt : Prop := forall site, spec ex_macro (relocate_old site (run true ex_macro)) = true.
+Theorem compare_macro_old_refuted : ~ compare_macro_old_stmt.
+Proof. intro H. specialize (H (99%N, 139%N)). vm_compute in H. discriminate H. Qed.
+Example ex_macro_repaired : spec ex_macro (run true ex_macro) = true /\ spec ex_macro (relocate_old (0%N, 110%N) (run true ex_macro)) = true.
+Proof. split; vm_compute; reflexivity. Qed.
+
 (* a program whose behaviour depends on the repetition: the body fails only in repetition 0 (a static flag), the plugin complains
    only in repetition 1; -r3.  Repetitions 0 and 1 are not OK, the last one is: the returned value is not zero. *)
 Definition ex_flaky : scenario :=
